@@ -384,6 +384,96 @@ impl Gen for i32 {
     }
 }
 
+// ---- an enum with more symbols than fit a one-byte zig-zag index (64 and above need two bytes)
+#[derive(Debug, Serialize, Deserialize, AvroSchema, Clone, PartialEq)]
+pub enum Many { V000, V001, V002, V003, V004, V005, V006, V007, V008, V009, V010, V011, V012, V013, V014, V015, V016, V017, V018, V019, V020, V021, V022, V023, V024, V025, V026, V027, V028, V029, V030, V031, V032, V033, V034, V035, V036, V037, V038, V039, V040, V041, V042, V043, V044, V045, V046, V047, V048, V049, V050, V051, V052, V053, V054, V055, V056, V057, V058, V059, V060, V061, V062, V063, V064, V065, V066, V067, V068, V069, V070, V071, V072, V073, V074, V075, V076, V077, V078, V079, V080, V081, V082, V083, V084, V085, V086, V087, V088, V089, V090, V091, V092, V093, V094, V095, V096, V097, V098, V099, V100, V101, V102, V103, V104, V105, V106, V107, V108, V109, V110, V111, V112, V113, V114, V115, V116, V117, V118, V119, V120, V121, V122, V123, V124, V125, V126, V127, V128, V129 }
+const MANY_ALL: [Many; 130] = [Many::V000, Many::V001, Many::V002, Many::V003, Many::V004, Many::V005, Many::V006, Many::V007, Many::V008, Many::V009, Many::V010, Many::V011, Many::V012, Many::V013, Many::V014, Many::V015, Many::V016, Many::V017, Many::V018, Many::V019, Many::V020, Many::V021, Many::V022, Many::V023, Many::V024, Many::V025, Many::V026, Many::V027, Many::V028, Many::V029, Many::V030, Many::V031, Many::V032, Many::V033, Many::V034, Many::V035, Many::V036, Many::V037, Many::V038, Many::V039, Many::V040, Many::V041, Many::V042, Many::V043, Many::V044, Many::V045, Many::V046, Many::V047, Many::V048, Many::V049, Many::V050, Many::V051, Many::V052, Many::V053, Many::V054, Many::V055, Many::V056, Many::V057, Many::V058, Many::V059, Many::V060, Many::V061, Many::V062, Many::V063, Many::V064, Many::V065, Many::V066, Many::V067, Many::V068, Many::V069, Many::V070, Many::V071, Many::V072, Many::V073, Many::V074, Many::V075, Many::V076, Many::V077, Many::V078, Many::V079, Many::V080, Many::V081, Many::V082, Many::V083, Many::V084, Many::V085, Many::V086, Many::V087, Many::V088, Many::V089, Many::V090, Many::V091, Many::V092, Many::V093, Many::V094, Many::V095, Many::V096, Many::V097, Many::V098, Many::V099, Many::V100, Many::V101, Many::V102, Many::V103, Many::V104, Many::V105, Many::V106, Many::V107, Many::V108, Many::V109, Many::V110, Many::V111, Many::V112, Many::V113, Many::V114, Many::V115, Many::V116, Many::V117, Many::V118, Many::V119, Many::V120, Many::V121, Many::V122, Many::V123, Many::V124, Many::V125, Many::V126, Many::V127, Many::V128, Many::V129];
+impl Gen for Many {
+    fn gen_value(r: &mut Rng, _d: u32) -> Self {
+        // the boundaries of the index encoding first
+        let k = match r.below(4) {
+            0 => [0usize, 1, 62, 63, 64, 65, 126, 127, 128, 129][r.below(10) as usize],
+            _ => r.below(130) as usize,
+        };
+        MANY_ALL[k].clone()
+    }
+}
+
+#[derive(Debug, Serialize, Deserialize, AvroSchema, Clone, PartialEq)]
+pub struct WithMany {
+    one: Many,
+    maybe: Option<Many>,
+    list: Vec<Many>,
+    map: HashMap<String, Many>,
+    tail: i32,
+}
+impl Gen for WithMany {
+    fn gen_value(r: &mut Rng, d: u32) -> Self {
+        WithMany {
+            one: Many::gen_value(r, d),
+            maybe: if r.below(3) == 0 { None } else { Some(Many::gen_value(r, d)) },
+            list: (0..r.len()).map(|_| Many::gen_value(r, d)).collect(),
+            map: (0..r.len().min(3)).map(|i| (format!("k{i}"), Many::gen_value(r, d))).collect(),
+            tail: r.i64() as i32,
+        }
+    }
+}
+
+// ---- fields that serde omits for some values (skip_serializing_if): the serializer writes the schema default,
+// written in the schema as an integer literal for floats, as a string, a boolean, a null
+fn zero_f64(x: &f64) -> bool {
+    *x == 0.0
+}
+fn zero_f32(x: &f32) -> bool {
+    *x == 0.0
+}
+fn zero_i64(x: &i64) -> bool {
+    *x == 0
+}
+fn is_empty_s(x: &str) -> bool {
+    x.is_empty()
+}
+fn is_false(x: &bool) -> bool {
+    !*x
+}
+#[derive(Debug, Serialize, Deserialize, AvroSchema, Clone, PartialEq)]
+pub struct Skipping {
+    id: i32,
+    #[serde(default, skip_serializing_if = "zero_f64")]
+    #[avro(default = "0")]
+    ratio: f64,
+    #[serde(default, skip_serializing_if = "zero_f32")]
+    #[avro(default = "0")]
+    small: f32,
+    #[serde(default, skip_serializing_if = "zero_i64")]
+    #[avro(default = "0")]
+    count: i64,
+    #[serde(default, skip_serializing_if = "is_empty_s")]
+    #[avro(default = r#""""#)]
+    note: String,
+    #[serde(default, skip_serializing_if = "is_false")]
+    #[avro(default = "false")]
+    flag: bool,
+    #[serde(default, skip_serializing_if = "Option::is_none")]
+    #[avro(default = "null")]
+    opt: Option<i32>,
+    last: String,
+}
+impl Gen for Skipping {
+    fn gen_value(r: &mut Rng, _d: u32) -> Self {
+        Skipping {
+            id: r.i64() as i32,
+            ratio: if r.below(2) == 0 { 0.0 } else { 1.5 },
+            small: if r.below(2) == 0 { 0.0 } else { 2.5 },
+            count: if r.below(2) == 0 { 0 } else { r.i64() },
+            note: if r.below(2) == 0 { String::new() } else { r.string() },
+            flag: r.below(2) == 1,
+            opt: if r.below(2) == 0 { None } else { Some(r.i64() as i32) },
+            last: r.string(),
+        }
+    }
+}
+
 // ---- serde rename rules on enums: a container-wide rule for the fields of struct variants, overridden by a
 // variant's own rule; renamed variants
 #[derive(Debug, Serialize, Deserialize, AvroSchema, Clone, PartialEq)]
@@ -619,7 +709,11 @@ where
                     match w.write_ref(&value, &mut msg) {
                         Err(_) => err(),
                         Ok(n) => {
-                            let framed = msg.len() >= 10 && msg[0] == 0xC3 && msg[1] == 0x01 && msg[10..] == bytes[..];
+                            let hdr = {
+                                use apache_avro::headers::{HeaderBuilder, RabinFingerprintHeader};
+                                RabinFingerprintHeader::from_schema(&schema).build_header()
+                            };
+                            let framed = msg.len() >= 10 && msg[0] == 0xC3 && msg[1] == 0x01 && msg[..10] == hdr[..] && msg[10..] == bytes[..];
                             let back = apache_avro::SpecificSingleObjectReader::<T>::new()
                                 .and_then(|r| r.read(&mut &msg[..]))
                                 .map(|b| same_f(&b, &value));
@@ -653,7 +747,44 @@ where
                     }
                 }
             };
-            Sexp::tag("extra", vec![so, fromv, wadr])
+            // a typed writer built for an explicit schema (the type's own schema published under another namespace):
+            // the header must be the fingerprint of THAT schema, and the reader for that schema must read the message
+            let so_explicit = match &schema {
+                Schema::Record(_) => {
+                    let mut js: serde_json::Value = serde_json::from_str(&json).unwrap_or(serde_json::Value::Null);
+                    if let Some(m) = js.as_object_mut() {
+                        m.insert("namespace".into(), serde_json::Value::String("published.elsewhere".into()));
+                    }
+                    match Schema::parse_str(&js.to_string()) {
+                        Err(_) => Sexp::tag("schema-err", vec![]),
+                        Ok(s2) => {
+                            use apache_avro::headers::{HeaderBuilder, RabinFingerprintHeader};
+                            let want = RabinFingerprintHeader::from_schema(&s2).build_header();
+                            let differs = want != RabinFingerprintHeader::from_schema(&schema).build_header();
+                            match apache_avro::SpecificSingleObjectWriter::<T>::builder().resolved(s2.clone()).map(|b| b.build()) {
+                                Err(_) => Sexp::tag("writer-err", vec![]),
+                                Ok(w) => {
+                                    let mut msg: Vec<u8> = Vec::new();
+                                    match w.write_ref(&value, &mut msg) {
+                                        Err(_) => err(),
+                                        Ok(_) => {
+                                            let header_ok = msg.len() >= want.len() && msg[..want.len()] == want[..];
+                                            let reads = apache_avro::GenericSingleObjectReader::builder()
+                                                .schema(s2.clone())
+                                                .build()
+                                                .and_then(|r| r.read_value(&mut &msg[..]))
+                                                .is_ok();
+                                            ok(vec![flag(differs), flag(header_ok), flag(reads)])
+                                        }
+                                    }
+                                }
+                            }
+                        }
+                    }
+                }
+                _ => Sexp::tag("skipped", vec![]),
+            };
+            Sexp::tag("extra", vec![so, fromv, wadr, so_explicit])
         })
     } else {
         Sexp::tag("skipped", vec![])
@@ -712,6 +843,9 @@ pub fn serde_case(a: &[Sexp]) -> Sexp {
         "pair" => run_type::<(Inner, Suit)>(seed, bs),
         "array3" => run_type::<[Single; 3]>(seed, bs),
         "one-tuple-int" => run_type::<(i32,)>(seed, bs),
+        "skipping" => run_type::<Skipping>(seed, bs),
+        "many" => run_type::<Many>(seed, bs),
+        "with-many" => run_type::<WithMany>(seed, bs),
         "rename-rules" => run_type::<RenameRules>(seed, bs),
         "kebab-units" => run_type::<KebabUnits>(seed, bs),
         "with-rules" => run_type::<WithRules>(seed, bs),
